@@ -27,6 +27,7 @@ type ctx struct {
 	defAsserts map[*T]string
 	usesIx bool
 	usesBits bool
+	wrap64 bool // int mode: 64-bit arithmetic wraps (exact) instead of producing overflow obligations
 	facts []symFact // facts about heap symbols (value ranges), rendered when the symbol is used
 }
 
@@ -577,7 +578,7 @@ func (c *ctx) arith(op token.Token, x, y *T, t types.Type, ovf *[]overflowCheck)
 	}
 	// int mode
 	res := func(r *T) *T {
-		if w < 64 {
+		if w < 64 || c.wrap64 {
 			return c.wrap(r, w, signed)
 		}
 		if ovf != nil {
